@@ -829,6 +829,36 @@ def redirect_into_calls(d):
     return n
 
 
+def resolve_named_consts(d):
+    """A use of a crate-local named constant whose initialiser is a plain literal (`const NAME_PATTERN: &str = "..."`, `const WATCH: &str = "watch"`)
+    is the use of that literal: the operand keeps its `def` (the rules that speak of a constant by its role still find it) and gets the literal as `val`.
+    Returns the number of operands rewritten."""
+    import vocabulary
+    lit = {}
+    for b in d["bodies"]:
+        if b["kind"].startswith("Const") and "{" not in b["def"] and "<" not in b["def"]:
+            v = vocabulary._const_value(b)
+            if v is not None and v != b["def"]:
+                lit[b["def"]] = (v, b.get("ret"))
+    n = 0
+
+    def walk(x):
+        nonlocal n
+        if isinstance(x, dict):
+            if x.get("k") == "const" and x.get("def") in lit and x.get("val") == x.get("def"):
+                x["val"] = lit[x["def"]][0]
+                n += 1
+            for v in x.values():
+                walk(v)
+        elif isinstance(x, list):
+            for v in x:
+                walk(v)
+    if lit:
+        for b in d["bodies"]:
+            walk(b["blocks"])
+    return n
+
+
 class Facts:
     def __init__(self, path):
         d = json.load(open(path))
@@ -839,6 +869,7 @@ class Facts:
             self.renamed_vocabulary = {"error": f"{type(e).__name__}: {e}"}
         self.renamed_fields = canonicalise_helper_fields(d)
         redirect_into_calls(d)
+        resolve_named_consts(d)
         self.meta = {k: d[k] for k in ("crate", "nonce", "rustc", "test_harness", "debug_assertions", "missing_bodies") if k in d}
         self.adt_list = d["adts"]  # several derive-generated ADTs can share one path (serde's `__Field` per enum variant)
         self.adts = {}
